@@ -145,6 +145,26 @@ def c_place(mod, variant=0, **kw):
     return f
 
 
+def c_place_dl(mod):
+    """The same problem on a machine of the same shape whose dead links
+    differ (every link between columns 0 and 1 is dead one way)."""
+    def f():
+        import importlib
+        from rig.links import Links
+        m = importlib.import_module("rig.place_and_route.place." + mod)
+
+        def build():
+            vr, nets, machine, cons = problem(0)
+            machine.dead_links = set(
+                [(0, y, l) for y in range(machine.height)
+                 for l in (Links.east, Links.north_east)] +
+                [(1, y, Links.north) for y in range(machine.height)])
+            return vr, nets, machine, cons
+        return with_args(build, lambda vr, nets, ma, co: m.place(vr, nets, ma,
+                                                                 co))
+    return f
+
+
 def c_rand(variant=0):
     def f():
         import random
@@ -295,6 +315,49 @@ def c_controller(which):
     return f
 
 
+def c_controller_kwonly(which):
+    """Methods whose contextual arguments are keyword-only (send_scp,
+    load_application): explicit values in one call, omitted in the next."""
+    def f():
+        import tempfile
+        sys.path.insert(1, os.path.dirname(HERE))
+        from mc.ctl import Session
+        from mc.sim import SimMachine
+        from mc.runner import REPO
+        sim = SimMachine(REPO, 2, 2)
+        sim.full_sync = False
+        out = []
+        with tempfile.NamedTemporaryFile(suffix=".aplx") as tf:
+            tf.write(bytes(range(40)))
+            tf.flush()
+            with Session(sim) as s:
+                mc = s.mc
+                try:
+                    if which == 0:
+                        mc.send_scp(0, x=1, y=1, p=3)
+                        mc.load_application({tf.name: {(0, 0): {1}}},
+                                            app_id=30, wait=True)
+                    else:
+                        try:
+                            mc.send_scp(0)
+                            out.append("send_scp without x/y/p accepted")
+                        except TypeError:
+                            out.append("TypeError")
+                        with mc(x=0, y=1, p=2):
+                            mc.send_scp(0)
+                        mc.load_application({tf.name: {(1, 0): {2}}},
+                                            app_id=31)
+                except Exception as e:
+                    out.append("%s: %s" % (type(e).__name__, e))
+                out += [(r["raw_chip"], r["cpu"], r["cmd"], r["arg1"] &
+                         0xffffff, r["arg2"]) for r in sim.cmds
+                        if r["cmd"] not in (2, 3)]
+                out.append(sorted((xy, c.core_state[1:4])
+                                  for xy, c in sim.chips.items()))
+        return canon(out), []
+    return f
+
+
 def c_controller_default(which):
     def f():
         sys.path.insert(1, os.path.dirname(HERE))
@@ -396,6 +459,7 @@ def call_table():
         ("bfs", c_place("breadth_first")),
         ("hilbert", c_place("hilbert", 1)),
         ("rcm", c_place("rcm")),
+        ("rcm_dl", c_place_dl("rcm")),
         ("rand", c_rand()),
         ("sa_py", c_sa("py")),
         ("sa_c", c_sa("c", 1)),
@@ -403,6 +467,8 @@ def call_table():
         ("route0", c_route(0)),
         ("route2", c_route(2, 1)),
         ("route20", c_route(20)),
+        ("route3", c_route(3)),
+        ("route1", c_route(1, 1)),
         ("tables", c_tables()),
         ("rde", c_min("rde", 0, None)),
         ("oc", c_min("oc", 0, None)),
@@ -417,6 +483,8 @@ def call_table():
         ("bitfield1", c_bitfield(1)),
         ("mc0", c_controller(0)),
         ("mc1", c_controller(1)),
+        ("mc_kwonly0", c_controller_kwonly(0)),
+        ("mc_kwonly1", c_controller_kwonly(1)),
         ("mc_default0", c_controller_default(0)),
         ("mc_default1", c_controller_default(1)),
         ("boot_spin3", c_boot(0)),
